@@ -233,9 +233,20 @@ void Exec::do_op3(const Op &op, bool top, Inst *S, Inst *T, bool deny) {
             refused_fd_reg = present ? idx : -1; // a refused registration leaves no trace: in particular it must not close the descriptor
             int lf = 0; if (b & 1) lf |= M_SRC_FD_AUTOCLOSE; if (b & 2) lf |= M_SRC_DUP; if (b & 4) lf |= M_SRC_ONESHOT;
             long token = 0x2000 + next_token++;
+            // bits 8-9 of b: the k-th allocation made by this call is refused by the configured allocator. A registration that reports failure must leave no trace
+            // (count unchanged, descriptor not closed, nothing polled, nothing leaked); one that reports success is registered
+            const long kref = (b >> 8) & 3; const bool inject = kref && legal && !present && !S->tb_on;
+            if (inject) { track::arm_refusal(kref); refused_fd_reg = idx; }
             int r = m_mod_src_register_fd(handle(S), fd, (m_src_flags)lf, (void *)token);
+            const bool refused_alloc = inject && track::disarm_refusal();
             if (!legal) { RET_ILLEGAL("C01.2", "m_mod_src_register_fd", r); break; }
             refused_fd_reg = -1;
+            if (refused_alloc) {
+                cls.insert("source-registration-with-refused-allocation"); nt["C20"] = true;
+                trace("fd_reg with refused allocation #" + std::to_string(kref) + " -> " + std::to_string(r));
+                if (r > 0) fail("C09.4", "m_mod_src_register_fd returned " + std::to_string(r));
+                if (r != 0) break; // refused: the model keeps the descriptor unregistered, the probes that follow compare the counts
+            }
             if (present) { if (r != -EEXIST) fail("C09.1", "registering descriptor source " + std::to_string(fd) + " twice returned " + std::to_string(r) + ", expected -EEXIST"); if (S->fds.size() >= 2) nt["C09"] = true; cls.insert("duplicate-source-registration"); break; }
             RET_LEGAL("C09.1", "m_mod_src_register_fd", r);
             FdSrc s{idx, fd, (bool)(b & 1), (bool)(b & 2), (bool)(b & 4), token};
@@ -277,8 +288,17 @@ void Exec::do_op3(const Op &op, bool top, Inst *S, Inst *T, bool deny) {
             switch (op.b & 3) { case 1: lf |= M_SRC_PRIO_LOW; pr = PRIO_LOW; break; case 3: lf |= M_SRC_PRIO_HIGH; pr = PRIO_HIGH; break; default: break; }
             if (op.b & 4) lf |= M_SRC_ONESHOT;
             long token = 0x3000 + next_token++;
+            const long kref = (op.b >> 8) & 3; const bool inject = kref && legal && !present && !S->tb_on;
+            if (inject) track::arm_refusal(kref);
             int r = m_mod_src_register_tmr(handle(S), &its, (m_src_flags)lf, (void *)token);
+            const bool refused_alloc = inject && track::disarm_refusal();
             if (!legal) { RET_ILLEGAL("C01.2", "m_mod_src_register_tmr", r); break; }
+            if (refused_alloc) {
+                cls.insert("source-registration-with-refused-allocation"); nt["C20"] = true;
+                trace("tmr_reg with refused allocation #" + std::to_string(kref) + " -> " + std::to_string(r));
+                if (r > 0) fail("C09.4", "m_mod_src_register_tmr returned " + std::to_string(r));
+                if (r != 0) break;
+            }
             if (present) { if (r != -EEXIST) fail("C09.1", "registering a timer with period " + std::to_string(tmr_period_ms[idx]) + "ms twice returned " + std::to_string(r) + ", expected -EEXIST"); if (S->tmrs.size() >= 2) nt["C09"] = true; cls.insert("duplicate-source-registration"); break; }
             RET_LEGAL("C09.1", "m_mod_src_register_tmr", r);
             S->tmrs[idx] = TmrSrc{idx, (bool)(op.b & 4), pr, token};
